@@ -74,7 +74,30 @@ func runC04(p *eng.Prog, r *eng.Report, tier string) {
 		names = append(names, f.Short)
 	}
 	r.Note("NEG set (%d functions): %s", len(neg), strings.Join(names, ", "))
-	c04CtxThreaded(c, "C04.8", neg)
+	// ... and the constructors above them: every function of the module that
+	// takes a context and returns a session (NewSession, Dial*, Receive*,
+	// component.NewSession, websocket.*) hands its own context down
+	ctors := append([]*eng.Fn(nil), neg...)
+	inNeg0 := map[*eng.Fn]bool{}
+	for _, f := range neg {
+		inNeg0[f] = true
+	}
+	for _, f := range c.allFns() {
+		sig := f.Sig()
+		if sig == nil || inNeg0[f] || f.Body == nil {
+			continue
+		}
+		ret := false
+		for i := 0; i < sig.Results().Len(); i++ {
+			if eng.TypeStr(sig.Results().At(i).Type()) == "*xmpp.Session" {
+				ret = true
+			}
+		}
+		if ret {
+			ctors = append(ctors, f)
+		}
+	}
+	c04CtxThreaded(c, "C04.8", ctors)
 	r.Floor("C04.1", "functions in the negotiation set", len(neg), 40)
 	errDiscipline(c, "C04.1", neg, acceptC04, true)
 	c01Session(c) // C04.3 / C01.7 / C01.14 / C01.12
@@ -646,6 +669,39 @@ func callerSlicesNotRewritten(c *cx, id string, fns []*eng.Fn) {
 					// append may or may not reallocate: its result can share
 					return shares(x.Args[0], pt, depth+1)
 				}
+			case *ast.SelectorExpr:
+				// a slice-typed field of a configuration value that this function
+				// did not build itself (a parameter, a captured variable, the
+				// result of a callback): StreamConfig.Features is the caller's
+				// slice, whatever struct it travels in
+				if _, isSlice := f.Info().TypeOf(x).Underlying().(*types.Slice); !isSlice {
+					return nil
+				}
+				sel, ok := f.Info().Selections[x]
+				if !ok || sel.Kind() != types.FieldVal {
+					return nil
+				}
+				fv, _ := sel.Obj().(*types.Var)
+				if cls, okc := f.FieldClass(x); !okc || cls != "xmpp.StreamConfig.Features" {
+					return nil
+				}
+				if root := rootLocal(f, x.X); root != nil && eng.IsLocal(root) {
+					built := true
+					ds := g.ReachingDefs(root, pt)
+					for _, d := range ds {
+						if d.RHS == nil {
+							built = false
+							continue
+						}
+						if _, isLit := ast.Unparen(d.RHS).(*ast.CompositeLit); !isLit {
+							built = false
+						}
+					}
+					if built && len(ds) > 0 {
+						return nil
+					}
+				}
+				return fv
 			}
 			return nil
 		}
@@ -870,8 +926,58 @@ func c04AdaptersReportEveryFault(c *cx, id string) {
 			if f.ErrResultIndex() >= 0 {
 				fns = append(fns, f)
 			}
+			continue
 		}
 	}
 	c.r.Floor(id, "error-returning methods of the connection adapters", len(fns), 6)
 	errDiscipline(c, id, fns, nil, false)
+	// what the tee writes to and reads from IS the connection: the writer is
+	// io.MultiWriter(conn, ...) and the reader io.TeeReader(conn, ...) themselves,
+	// with the connection as first operand - not something wrapped around them
+	// (a best-effort wrapper belongs around the console operand only: around
+	// the whole MultiWriter it swallows the connection's write errors too)
+	if nt := c.fn(id, "", "newTeeConn"); nt != nil {
+		for cls, want := range map[string]string{"xmpp.teeConn.multiWriter": "io.MultiWriter", "xmpp.teeConn.teeReader": "io.TeeReader"} {
+			nw := 0
+			for _, w := range nt.FieldWrites(cls) {
+				nw++
+				okw, why := false, "stored from "+exprOrEmpty(w.RHS)
+				if cl, isCall := ast.Unparen(w.RHS).(*ast.CallExpr); w.RHS != nil && isCall && nt.CalleeID(cl) == want && len(cl.Args) >= 1 {
+					if nt.Norm(cl.Args[0], nil) == "p1" {
+						okw = true
+					} else {
+						why = "the first operand of " + want + " is " + nt.Norm(cl.Args[0], nil) + ", not the connection"
+					}
+				}
+				c.r.Check(id, nt, "tee over the connection ("+cls+")", "K: the tee's writer / reader is "+want+"(conn, ...) itself: errors of the connection pass through unchanged", w.Stmt.Pos(), okw, why)
+			}
+			c.r.Floor(id, "stores to "+cls+" in newTeeConn", nw, 1)
+		}
+	}
+	// one operation of the wrapped connection per call, on every path: a
+	// fallback that writes the buffer again after a failed (tee'd) write puts
+	// the bytes on the wire twice
+	for _, f := range fns {
+		if f.Decl == nil || (f.Decl.Name.Name != "Read" && f.Decl.Name.Name != "Write") {
+			continue
+		}
+		g := f.Graph()
+		var ops []*ast.CallExpr
+		for _, cl := range f.AllCalls() {
+			if sel, ok := ast.Unparen(cl.Fun).(*ast.SelectorExpr); ok && sel.Sel.Name == f.Decl.Name.Name {
+				ops = append(ops, cl)
+			}
+		}
+		bad := ""
+		for _, a := range ops {
+			ap, _ := g.Where(a)
+			for _, b := range ops {
+				bp, okb := g.Where(b)
+				if okb && g.Reachable(g.After(ap), bp, nil, nil) {
+					bad = "after the " + f.Decl.Name.Name + " at " + c.p.Pos(a.Pos()) + " the one at " + c.p.Pos(b.Pos()) + " can run in the same call"
+				}
+			}
+		}
+		c.r.Check(id, f, "one wrapped "+f.Decl.Name.Name+" per call", "O: no path of the adapter performs two operations of the wrapped connection (data is never written or consumed twice)", f.Pos(), bad == "", bad)
+	}
 }
